@@ -106,7 +106,9 @@ func VF_C03_List() {
 					_ = ret
 				}
 			case 1: // InsertMany with a nil value inside
-				_, e := l.InsertMany(pos, "p", nil)
+				// an untyped nil or a typed nil pointer: both are null values
+				null := []interface{}{nil, (*string)(nil), (*map[string]interface{})(nil)}[vf.Choice("null", 3)]
+				_, e := l.InsertMany(pos, "p", null)
 				err = toErr(e)
 				valid = false
 			case 2: // Get
@@ -220,7 +222,8 @@ func VF_C03_Map() {
 					mutating = true
 				}
 			case 1: // Put nil
-				_, e := m.Put(key, nil)
+				null := []interface{}{nil, (*string)(nil), (*int)(nil)}[vf.Choice("null", 3)]
+				_, e := m.Put(key, null)
 				err = toErr(e)
 				valid = false
 			case 2: // Remove
